@@ -37,6 +37,23 @@ let election n limit evs =
         let three () = match String.split_on_char ',' arg with
           | [c; t; m] -> (nat_of_int (int_of_string c), nat_of_int (int_of_string t), nat_of_int (int_of_string m))
           | _ -> failwith "bad event" in
+        if ev.[0] = 'R' then begin
+          (* R<i>:<kind>:<session>:<obo>:<shape>  a client request dispatched on node i (ElectionC17b) *)
+          let open ElectionC17b in
+          (match String.split_on_char ':' arg with
+           | [i; kind; sess; obo; _] ->
+             let k = (match kind with
+                 | "pub" -> Some KPubD | "sub" -> Some KSubD | "leave" -> Some KLeaveD | "hi" -> Some KHiD
+                 | "login" -> Some KLoginD | "get" -> Some KGetD | "set" -> Some KSetD | "del" -> Some KDelD
+                 | "acc" -> Some KAccD | "note" -> Some KNoteD | "none" -> None | _ -> failwith "bad kind") in
+             let o = (match obo with "-" -> OboNoneD | "v" -> OboValidD | "x" -> OboInvalidD | _ -> failwith "bad obo") in
+             let root = String.length sess > 0 && sess.[0] = 'r' in
+             let res = client_request_c17b cfg !st (nat_of_int (int_of_string i)) root { rq_kind = k; rq_obo = o } in
+             out := (observe cfg n !st ^ (match res with
+                 | RepliedD code -> Printf.sprintf "#R:0,%d" (int_of_nat code)
+                 | HandlerD _ -> "#R:1,*")) :: !out
+           | _ -> failwith "bad request event")
+        end else
         let e = match ev.[0] with
           | 'T' -> (match String.split_on_char ':' arg with
               | [i; d; ok] -> Tick (nat_of_int (int_of_string i), digits d, digits ok)
@@ -50,7 +67,32 @@ let election n limit evs =
           | _ -> failwith "bad event" in
         (* the model follows the repaired code (nil check in gcProxySessionsForNode): the
            health-check handler always completes; Election.step never panics *)
-        st := step cfg !st e; out := observe cfg n !st :: !out
+        (* suffix of the observation: what the event delivered, as seen before/after the step *)
+        let before = !st in
+        let suffix = (match e with
+          | DeliverHealth idx ->
+            (match List.nth_opt before.hnet (int_of_nat idx) with
+             | Some h when (before.loc h.h_to).electing = None ->
+               let l = before.loc h.h_to in
+               let sigeq = list_eqb h.h_sig (sig_of l.ring_nodes) in
+               let after = step cfg before e in
+               let l' = after.loc h.h_to in
+               let adopted = list_eqb (sig_of h.h_nodes) (sig_of l'.ring_nodes) in
+               Printf.sprintf "#H:%d,%d,%d,%s,%s,%s" (int_of_nat h.h_to) (int_of_nat h.h_leader) (int_of_nat h.h_term)
+                 (if sigeq then "1" else "0")
+                 (String.concat "" (List.map string_of_int (List.sort compare (List.map int_of_nat h.h_nodes))))
+                 (if adopted then "1" else "0")
+             | _ -> "#H:-")
+          | DeliverReq (c, t, m) ->
+            (match before.rpcs c t m with
+             | ReqFlying ->
+               let after = step cfg before e in
+               (match ElectionC17b.vote_answer_c17b after c t m with
+                | Some (g, rt) -> Printf.sprintf "#Q:%s,%d" (if g then "1" else "0") (int_of_nat rt)
+                | None -> "#Q:-")
+             | _ -> "#Q:-")
+          | _ -> "") in
+        st := step cfg !st e; out := (observe cfg n !st ^ suffix) :: !out
       end) evs;
   String.concat "|" (List.rev !out)
 
